@@ -5,11 +5,15 @@ package harness
 // C05 — loading any input yields a runner or an error; bad syntax is an error.
 
 import (
+	"bufio"
+	"bytes"
 	"fmt"
 	"io"
+	"os"
 	"regexp"
 	"strings"
 	"testing"
+	"testing/iotest"
 	"time"
 
 	"github.com/antlr4-go/antlr/v4"
@@ -25,6 +29,11 @@ type c05Case struct {
 	// Expect, when set, is a construction-time expectation independent of the grammar code:
 	// "accept" (valid by construction) or "reject" (invalid by construction).
 	Expect string `json:"expect,omitempty"`
+	// Readers: per piece, the kind of io.Reader that delivers it (0 strings.Reader; 1 bytes.Buffer; 2 a SectionReader of which
+	// the host has already read a preamble; 3 an *os.File positioned behind a preamble; 4 one byte per Read; 5 data and
+	// io.EOF in the same Read; 6 bufio.Reader; 7 an exhausted-then-refilled pipe). What the library must load is what is
+	// still to be read.
+	Readers []int `json:"readers,omitempty"`
 }
 
 type pieceValidity struct {
@@ -117,8 +126,50 @@ func decideC05(c c05Case) Verdict {
 	wantOK := allValid && seedOK
 
 	readers := make([]io.Reader, len(c.Pieces))
+	const preamble = "SAVE-FILE-HEADER v2\ntitle: NotPartOfTheScript\n---\n"
 	for i, p := range c.Pieces {
-		readers[i] = strings.NewReader(p)
+		kind := 0
+		if i < len(c.Readers) {
+			kind = c.Readers[i]
+		}
+		switch kind {
+		case 1:
+			readers[i] = bytes.NewBufferString(p)
+		case 2:
+			sr := io.NewSectionReader(strings.NewReader(preamble+p), 0, int64(len(preamble)+len(p)))
+			_, _ = io.ReadFull(sr, make([]byte, len(preamble)))
+			readers[i] = sr
+		case 3:
+			f, ferr := os.CreateTemp(outDir(), "c05-reader-*.yarn")
+			if ferr != nil {
+				readers[i] = strings.NewReader(p)
+				break
+			}
+			defer os.Remove(f.Name())
+			defer f.Close()
+			_, _ = f.WriteString(preamble + p)
+			_, _ = f.Seek(int64(len(preamble)), io.SeekStart)
+			readers[i] = f
+		case 4:
+			readers[i] = iotest.OneByteReader(strings.NewReader(p))
+		case 5:
+			readers[i] = iotest.DataErrReader(strings.NewReader(p))
+		case 6:
+			readers[i] = bufio.NewReaderSize(strings.NewReader(p), 16)
+		case 7:
+			pr, pw := io.Pipe()
+			go func(p string) {
+				for len(p) > 0 {
+					n := min(len(p), 7)
+					_, _ = pw.Write([]byte(p[:n]))
+					p = p[n:]
+				}
+				pw.Close()
+			}(p)
+			readers[i] = pr
+		default:
+			readers[i] = strings.NewReader(p)
+		}
 	}
 	var (
 		dr       *ysgo.DialogueRunner
@@ -258,7 +309,15 @@ func renderC05(c c05Case) any {
 	return map[string]any{"kind": c.Kind, "seed": c.Seed, "pieces": c.Pieces}
 }
 
-var c05Load = Register(Prop[c05Case]{ID: "C05", Name: "load", Gen: genC05, Run: runC05, Render: renderC05})
+// withReaderKinds draws, for a third of the cases, the kind of reader that delivers each piece.
+func withReaderKinds(t *rapid.T, c c05Case) c05Case {
+	if rapid.IntRange(0, 2).Draw(t, "readerkinds") == 0 {
+		c.Readers = rapid.SliceOfN(rapid.IntRange(0, 7), len(c.Pieces), len(c.Pieces)).Draw(t, "kinds")
+	}
+	return c
+}
+
+var c05Load = Register(Prop[c05Case]{ID: "C05", Name: "load", Gen: func(t *rapid.T) c05Case { return withReaderKinds(t, genC05(t)) }, Run: runC05, Render: renderC05})
 
 func TestC05Load(t *testing.T) { Check(t, c05Load) }
 
@@ -475,7 +534,7 @@ func genC05Constructed(t *rapid.T) c05Case {
 	return c
 }
 
-var c05Constructed = Register(Prop[c05Case]{ID: "C05", Name: "constructed", Gen: genC05Constructed, Run: runC05, Render: renderC05})
+var c05Constructed = Register(Prop[c05Case]{ID: "C05", Name: "constructed", Gen: func(t *rapid.T) c05Case { return withReaderKinds(t, genC05Constructed(t)) }, Run: runC05, Render: renderC05})
 
 func TestC05Constructed(t *testing.T) { Check(t, c05Constructed) }
 
